@@ -677,6 +677,43 @@ func runWrappedNativeCase(n int, twoMounts bool) *fail {
 			l.Close()
 		}
 	}
+	// the composed root itself, listed in pages of 1 and 2 entries: every listed
+	// QID is the one Walk reports for that name (one path per file, whichever way it is learnt)
+	for _, page := range []uint32{1, 2, 1 << 20} {
+		_, l, err := root.Walk(nil)
+		if err != nil {
+			return failf("harness-clone", "HARNESS-ERROR %v", err)
+		}
+		if _, _, err := l.Open(p9.ReadOnly); err != nil {
+			l.Close()
+			return failf("harness-open", "HARNESS-ERROR %v", err)
+		}
+		off := uint64(0)
+		for iter := 0; iter < 100; iter++ {
+			ents, err := l.Readdir(off, page)
+			if err != nil || len(ents) == 0 {
+				break
+			}
+			for _, e := range ents {
+				qs, f1, err := root.Walk([]string{e.Name})
+				if err != nil || len(qs) != 1 {
+					l.Close()
+					return failf("harness-walk", "HARNESS-ERROR Walk(%s): %v", e.Name, err)
+				}
+				f1.Close()
+				if e.QID != qs[0] {
+					l.Close()
+					return failf("mapper-unstable:listing", "/%s is listed (pages of %d, offset %d) with QID path %#x type %#x, Walk reports path %#x type %#x", e.Name, page, off, e.QID.Path, uint8(e.QID.Type), qs[0].Path, uint8(qs[0].Type))
+				}
+				if f := claim(e.QID, "/"+e.Name); f != nil {
+					l.Close()
+					return f
+				}
+			}
+			off = ents[len(ents)-1].Offset
+		}
+		l.Close()
+	}
 	return nil
 }
 
